@@ -48,7 +48,7 @@ def singletons_dirty():
         out.append("Fragment.empty")
     if pm.Slice.empty.content is not pm.Fragment.empty or pm.Slice.empty.open_start or pm.Slice.empty.open_end:
         out.append("Slice.empty")
-    if pt.StepMap.empty.ranges or pt.StepMap.empty.inverted:
+    if len(pt.StepMap.empty.ranges) or pt.StepMap.empty.inverted:
         out.append("StepMap.empty")
     return out
 
@@ -60,7 +60,10 @@ def restore_singletons():
     pm.Fragment.empty.size = 0
     pm.Slice.empty.content = pm.Fragment.empty
     pm.Slice.empty.open_start = pm.Slice.empty.open_end = 0
-    del pt.StepMap.empty.ranges[:]
+    if isinstance(pt.StepMap.empty.ranges, list):
+        del pt.StepMap.empty.ranges[:]
+    else:
+        pt.StepMap.empty.ranges = type(pt.StepMap.empty.ranges)()
     pt.StepMap.empty.inverted = False
 
 
